@@ -39,6 +39,7 @@ type EQuant struct {
 	Forall bool
 	Vars   []BoundVar
 	Body   Expr
+	Pats   []Expr // optional explicit multi-pattern: forall x T :: {p1, p2} body
 }
 type ECond struct{ C, A, B Expr }
 type EType struct{ Text string } // a type used as conversion target, e.g. []byte
@@ -193,6 +194,15 @@ func (p *parser) expr() Expr {
 			}
 		}
 		p.expect("::")
+		if p.accept("{") {
+			for {
+				q.Pats = append(q.Pats, p.expr())
+				if !p.accept(",") {
+					break
+				}
+			}
+			p.expect("}")
+		}
 		q.Body = p.expr()
 		return q
 	}
